@@ -31,8 +31,9 @@ CHECKS = {
     "C04": ("exploration",
             "The simulator gives the OS's answers and holds the answer sheet: exhaustive enumeration of all 4096 permission values x 7 file types (mode string, permission/suid/sgid booleans, exactly-one type flag), "
             "overlaid lstat answers (size/uid/gid/nlink/blocks/inode/mtime, ids with and without names) under permuted arrival orders and DT_UNKNOWN, and content readers (sha1/256/512/sha3, line_count, is_shebang, contains) "
-            "under simulated read chunking / short reads around the 8 KiB and 32 KiB buffer boundaries; oracle = the overlay values, stat.filemode, hashlib.",
-            "Pure decompositions (name/ext/dir/abspath, extension classes with default lists) are covered only as a by-product; capabilities/xattrs and configuration overrides are not covered (xattr calls bypass the seam). " + TRUST,
+            "under simulated read chunking / short reads around the 8 KiB and 32 KiB buffer boundaries, has_xattrs / capabilities against real tmpfs attributes (each of the 41 capabilities x effective x {p,i,ip} enumerated, random sets), "
+            "unasserted columns mixed into the select list and WHERE (the per-entry cache must not leak); oracle = the overlay values, stat.filemode, hashlib, the VFS capability layout.",
+            "Pure decompositions (name/ext/dir/abspath, extension classes) are covered only as a by-product; the xattr system calls are raw system calls and do not pass the seam: their answers are real tmpfs attributes and no fault is injected into them. " + TRUST,
             "DESIGN.md section 5 C04"),
     "C05": ("exploration",
             "Seeded search over (tree with ties and string-vs-numeric traps, 1-3 keys asc/desc, positional/explicit, selected or not) x arrival order classes incl. key-ascending/descending x hash seed; "
